@@ -420,27 +420,29 @@ pub fn mul_mixed<const L: usize, const R: usize>(t: &mut Tape, c: &mut Case) -> 
     let (ba, bb) = (boxed(&al), boxed(&bl_));
     let (lo, hi) = total("Uint::split_mul", || a.split_mul(&b))?;
     let want: Limbs = [ul(&lo), ul(&hi)].concat();
-    let got = total("BoxedUint::mul", || ba.mul(&bb))?;
-    let gotl = bl(&got);
-    if gotl != want {
-        // F-03 signature: both operands >= 32 limbs, unequal lengths, the boxed product is too small
-        // by a sum of a few dropped carries 2^(64k)
+    // F-03 signature: both operands >= 32 limbs, unequal lengths, the boxed product is too small by a
+    // sum of a few dropped carries 2^(64k); any other deviation is an ordinary failure
+    let check_boxed = |name: &str, gotl: Limbs| -> CaseResult {
+        if gotl == want {
+            return Ok(());
+        }
         let (w, g) = (big(&want), big(&gotl));
         if L.min(R) >= 32 && L != R && gotl.len() == want.len() && w > g {
             let d = &w - &g;
             let dl = limbs_of(&d, L + R);
             let ones = dl.iter().filter(|&&x| x != 0).count();
             if dl.iter().all(|&x| x <= 1) && ones <= 8 {
-                return Err(Fail::known("F-03", format!("BoxedUint::mul ({L}x{R} limbs) is smaller than Uint::split_mul by dropped carries at limb boundaries (difference {:x})", d)));
+                return Err(Fail::known("F-03", format!("{name} ({L}x{R} limbs) is smaller than Uint::split_mul by dropped carries at limb boundaries (difference {:x})", d)));
             }
         }
-        vfail!("mul (widening, mixed widths {L}x{R}): route `BoxedUint::mul` gives {} but reference route `Uint::split_mul` gives {}", hex(&gotl), hex(&want));
-    }
+        Err(Fail::new(format!("mul (widening, mixed widths {L}x{R}): route `{name}` gives {} but reference route `Uint::split_mul` gives {}", hex(&gotl), hex(&want))))
+    };
+    check_boxed("BoxedUint::mul", bl(&total("BoxedUint::mul", || ba.mul(&bb))?))?;
+    check_boxed("BoxedUint::mul commuted", bl(&total("BoxedUint::mul commuted", || bb.mul(&ba))?))?;
     let r = Routes::new("mul mixed (wrapping)", "Uint::split_mul(a, b).0", Out::val(ul(&lo)));
     rt!(r, "Uint::wrapping_mul (mixed)", a.wrapping_mul(&b));
     rt!(r, "BoxedUint::wrapping_mul (mixed)", ba.wrapping_mul(&bb));
-    let r = Routes::new("mul mixed (commuted)", "Uint::split_mul(a, b)", Out::val(want));
+    let r = Routes::new("mul mixed (commuted)", "Uint::split_mul(a, b)", Out::val(want.clone()));
     rt!(r, "Uint::split_mul(b, a)", { let (l, h) = b.split_mul(&a); [ul(&l), ul(&h)].concat() });
-    rt!(r, "BoxedUint::mul(b, a)", bb.mul(&ba));
     Ok(())
 }
